@@ -109,7 +109,19 @@ def claimed_category(allh, prop):
     with passing unwinding assertions); a single bounded stand-in makes it `other`.  MANIFEST.json
     (tools/gen_manifest.py) and every evidence file use this one function, so they cannot disagree."""
     hs = deciding(allh, prop)
+    if level_override(prop) == "other":
+        return "other"
     return "proof" if hs and all(h["kind"].startswith("complete") for h in hs) else "other"
+
+
+def level_override(prop):
+    """tools/manifest_text.json may DOWNGRADE a property to `other` ("level": "other") when its
+    harnesses, though each complete for its function, cover only part of the property statement.
+    It can never upgrade."""
+    try:
+        return json.load(open(os.path.join(VERIF, "tools", "manifest_text.json"))).get(prop, {}).get("level")
+    except (OSError, ValueError):
+        return None
 
 
 # --------------------------------------------------------------------------- known findings
@@ -309,7 +321,11 @@ def write_evidence(prop, tier, seed, results, units, undecided, vcount, knownhit
         if b not in bounds:
             bounds.append(b + (" (thorough tier only; not run in this tier)" if h["tier"] == "thorough" and tier == "quick" else ""))
     all_complete = all_complete and not bounded_all
-    expl = ("every harness is loop-free or bounded only by operand width with passing unwinding assertions"
+    partial = level_override(prop) == "other" and all_complete
+    expl = ("PARTIAL coverage of the property statement (see MANIFEST level_claimed.text for what is and is not decided); "
+            "every harness that ran is loop-free, unbounded (Verus) or bounded only by operand width with passing unwinding assertions"
+            if partial else
+            "every harness is loop-free or bounded only by operand width with passing unwinding assertions"
             if all_complete else
             "contract-based; some units are BOUNDED stand-ins (never counted as proved): " + "; ".join(bounds))
     if undecided:
